@@ -388,7 +388,7 @@ def run(ctx):
     # ------------------------------------------------------------------ 5. the judge is sensitive
     rejected = {line for _, line, _t, _c in tr.tagged('REJECT')}
     good = [e for i, e in enumerate(events) if (i + 1) not in rejected and e['ev'] == 'pairs'
-            and e['api'] == 'direct' and len(e['pairs']) >= 3]
+            and e['api'] == 'direct' and len(e['pairs']) >= 3 and len(e['durs']) == len(e['pairs'])]
     if good:
         import copy
         a, b = copy.deepcopy(good[0]), copy.deepcopy(good[len(good) // 2])
